@@ -543,7 +543,14 @@ class EbuildProcessor:
                     signal.signal(signal.SIGALRM, signal.SIG_DFL)
 
         self._outstanding_expects.append((flush, want))
-        return self._consume_async_expects()
+        try:
+            return self._consume_async_expects()
+        except TimeoutError:
+            return False
+        finally:
+            if timeout:
+                signal.setitimer(signal.ITIMER_REAL, 0)
+                signal.signal(signal.SIGALRM, signal.SIG_DFL)
 
     def readlines(self, lines):
         mydata = []
